@@ -30,6 +30,18 @@ func H_value() {
 		vAssert(false, "compiles")
 		return
 	}
+	if !vEvalAndCheck(e, doc, cur, attr, "expr", "") {
+		return
+	}
+	if vHasParam("reuse") {
+		// the same compiled expression yields the same value when it is evaluated again
+		vEvalAndCheck(e, doc, cur, attr, "reuse", "-second-use")
+	}
+}
+
+// vEvalAndCheck evaluates e at (cur, attr) and raises the value obligation against the
+// oracle expression key; sfx distinguishes the labels of a repeated evaluation.
+func vEvalAndCheck(e *Expr, doc *symDoc, cur, attr int, key, sfx string) bool {
 	var v interface{}
 	var got []int
 	ended := true
@@ -39,30 +51,31 @@ func H_value() {
 			got, ended = vDrain(it, 4*doc.N*(doc.A+1)+2)
 		}
 	})
-	vObserve("panic-class", cls)
-	vAssert(cls == 0, "no-panic")
+	vObserve("panic-class"+sfx, cls)
+	vAssert(cls == 0, "no-panic"+sfx)
 	if cls != 0 {
-		return
+		return false
 	}
 	vFlag("nontrivial")
 	switch x := v.(type) {
 	case bool:
-		vObserve("bool", x)
-		vCheckBool("expr", cur, attr, x)
+		vObserve("bool"+sfx, x)
+		vCheckBool(key, cur, attr, x)
 	case float64:
-		vObserve("number", x)
-		vCheckNum("expr", cur, attr, x)
+		vObserve("number"+sfx, x)
+		vCheckNum(key, cur, attr, x)
 	case string:
-		vObserve("string", x)
-		vCheckStr("expr", cur, attr, x)
+		vObserve("string"+sfx, x)
+		vCheckStr(key, cur, attr, x)
 	case *NodeIterator:
-		vObserve("nodes", got)
-		vAssert(ended, "iterator-terminates")
-		vCheckNodeSet("expr", cur, attr, got)
+		vObserve("nodes"+sfx, got)
+		vAssert(ended, "iterator-terminates"+sfx)
+		vCheckNodeSet(key, cur, attr, got)
 	default:
-		vObserve("kind", vKindOf(v))
-		vAssert(false, "documented-result-type")
+		vObserve("kind"+sfx, vKindOf(v))
+		vAssert(false, "documented-result-type"+sfx)
 	}
+	return true
 }
 
 // vNav builds the navigator variant selected by parameter "nav" (plain: symNav;
